@@ -63,6 +63,10 @@ CHECKS = {
    technique="exhaustive enumeration of schema-submission sequences through the real api_v1_db_schema on a database holding rows, metamorphic invariants after every submission and a restart through the real setup() after every sequence",
    text="23 submissions (new table, added nullable / NOT NULL-with-default columns, index added / changed / dropped, resubmission, and forbidden edits: NOT NULL without default, explicit DROP TABLE, dropped column, changed type / default / nullability, changed or added primary key, UNIQUE index, foreign key, syntax error at statement 1/2/3, valid+invalid table pairs in both orders); every sequence of <= 2 (thorough 3) starting with any single submission or an allowed one. Accepted => tables/columns/rows/values only grow, existing column definitions unchanged, replicated data and db_version untouched, resubmission succeeds and changes nothing. Rejected => sqlite_schema, __corro_schema, table contents, crsql_changes and agent.schema() identical to before. Always-forbidden edits are rejected in every state; additive edits are accepted on the base schema; after restart agent.schema() equals the pre-restart value (column order included).",
    note="A crash inside the apply transaction is SQLite's own atomicity and is not enumerated. Two base tables, one with an index and rows."),
+ "C17": dict(engine="edge", design="§5 C17",
+   technique="exhaustive configuration grid on a live listener running the real router and middleware: routes x methods x Authorization-header shapes x {token configured, not}, and a statement grammar against the read endpoints, with a full state digest after every request",
+   text="7 routes x {GET, POST, PUT, DELETE} (+ an unknown path) x 14 Authorization shapes (none, Basic, wrong, prefix, suffix, other case, empty, empty header, two wrong headers, token without scheme, token in another header, lowercase scheme, wrong+exact, exact) x {token configured, not configured}, sent as hand-written HTTP/1.1 over TCP: without the exact token every request gets a 4xx and the database, bookkeeping, schema, version counter and subscription directory are unchanged; with no token configured nothing answers 401; the exact token is never answered 401. Then 26 writing statements (DML, DDL, PRAGMA writes, ATTACH, VACUUM [INTO], BEGIN, side-effecting crsql_* functions in a SELECT list, writes to crsql/bookkeeping tables) x 9 wrappers (plain, before/after a SELECT, trailing comment, EXPLAIN, CTE, RETURNING, sub-select, parameterised) to /v1/queries and /v1/subscriptions: digests unchanged whatever the status.",
+   note="State is read through a fresh connection (a statement such as SELECT crsql_finalize() can disable the pooled read connection it ran on without touching the database; noted in DESIGN.md, not judged). Statements outside the grammar and HTTP/2 are not covered."),
  "C18": dict(engine="members", design="§5 C18",
    technique="explicit-state BFS (stateright) whose transition function calls the real Members::{add_member,remove_member,add_rtt}; invariants from a fold-by-newest reference model evaluated in every reachable state",
    text="All reachable states of the member table for 2 actors (3 and 2 identity timestamps), every assignment of address/cluster to identities (64 tables quick, 256 thorough), up/down notifications in any admissible order, RTT samples {1,(40),1000} ms for current and former addresses; presence, identity (ts/address/cluster) and ring/ring0 invariants in every state; shortest counterexample re-derived by FIFO search. 3.4e5 states quick, 3.0e7 thorough, to fix-point.",
@@ -119,6 +123,7 @@ def main():
             {"name": "locks", "path": "harness/src/bin/locks.rs", "serves_properties": ["C20"], "kind_free_text": "stateless DFS over hand-polled SplitPool requesters"},
             {"name": "subs", "path": "harness/src/bin/subs.rs", "serves_properties": ["C11", "C13", "C14"], "kind_free_text": "query x history enumeration with real matchers / update feeds"},
             {"name": "schema", "path": "harness/src/bin/schema.rs", "serves_properties": ["C15"], "kind_free_text": "schema-submission sequence enumeration with metamorphic invariants"},
+            {"name": "edge", "path": "harness/src/bin/edge.rs", "serves_properties": ["C17"], "kind_free_text": "configuration grids on live listeners"},
             {"name": "members", "path": "harness/src/bin/members.rs", "serves_properties": ["C18"], "kind_free_text": "stateright BFS over the real Members methods"},
             {"name": "repl", "path": "harness/src/bin/repl.rs", "serves_properties": ["C01", "C03", "C05", "C06"], "kind_free_text": "replay-from-history explicit-state BFS over 2-3 real nodes"},
             {"name": "pure", "path": "harness/src/bin/pure.rs", "serves_properties": ["C04", "C08"], "kind_free_text": "exhaustive small-scope enumeration of pure functions against set models"},
